@@ -296,11 +296,12 @@ class TraitSet(set):
             The other iterables.
         """
 
-        old_set = self.copy()
-        super().difference_update(*args)
-        removed = old_set.difference(self)
+        # Work out the result first: an argument that cannot be processed
+        # must raise before any item has been removed.
+        removed = self.difference(self.difference(*args))
 
         if len(removed) > 0:
+            super().difference_update(removed)
             self.notify(removed, set())
 
     def intersection_update(self, *args):
